@@ -84,3 +84,40 @@ func TestHintMessages(t *testing.T) {
 		t.Logf("%4d %s", seen[k], k)
 	}
 }
+
+func TestGenOutcomes(t *testing.T) {
+	stats := map[string]int{}
+	r := rand.New(rand.NewSource(3))
+	for k := 0; k < 10; k++ {
+		for _, it := range buildBatch(r) {
+			if it.c.Family != "gen" {
+				continue
+			}
+			rec := execute(nil, &it.c)
+			kind := "ok"
+			switch {
+			case rec.Err == "ok":
+			case strings.HasPrefix(rec.Err, "evalerror:"):
+				kind = "dynamic: " + firstLine(rec.Err)
+				if len(kind) > 60 {
+					kind = kind[:60]
+				}
+			default:
+				kind = "static: " + firstLine(rec.Err)
+			}
+			stats[fmt.Sprintf("lbg=%v %s", it.c.Bits&16 != 0, kind)]++
+			if hasListing(&rec) {
+				stats["listing"]++
+			}
+			stats["total"]++
+		}
+	}
+	var ks []string
+	for k := range stats {
+		ks = append(ks, k)
+	}
+	sort.Strings(ks)
+	for _, k := range ks {
+		t.Logf("%4d %s", stats[k], k)
+	}
+}
